@@ -232,6 +232,67 @@ pub fn bin_result_type(a: u8, b: u8, op: QTok) -> Option<u8> {
         }
     }
 }
+macro_rules! named_units {
+    ($($n:ident),* $(,)?) => { [$((stringify!($n), rrtk::$n)),*] };
+}
+pub fn named_constants() -> [(&'static str, Unit); 49] {
+    named_units![
+        INVERSE_MILLIMETER_CUBED_SECOND_CUBED, INVERSE_MILLIMETER_CUBED_SECOND_SQUARED, INVERSE_MILLIMETER_CUBED_SECOND, INVERSE_MILLIMETER_CUBED,
+        SECOND_PER_MILLIMETER_CUBED, SECOND_SQUARED_PER_MILLIMETER_CUBED, SECOND_CUBED_PER_MILLIMETER_CUBED,
+        INVERSE_MILLIMETER_SQUARED_SECOND_CUBED, INVERSE_MILLIMETER_SQUARED_SECOND_SQUARED, INVERSE_MILLIMETER_SQUARED_SECOND, INVERSE_MILLIMETER_SQUARED,
+        SECOND_PER_MILLIMETER_SQUARED, SECOND_SQUARED_PER_MILLIMETER_SQUARED, SECOND_CUBED_PER_MILLIMETER_SQUARED,
+        INVERSE_MILLIMETER_SECOND_CUBED, INVERSE_MILLIMETER_SECOND_SQUARED, INVERSE_MILLIMETER_SECOND, INVERSE_MILLIMETER,
+        SECOND_PER_MILLIMETER, SECOND_SQUARED_PER_MILLIMETER, SECOND_CUBED_PER_MILLIMETER,
+        INVERSE_SECOND_CUBED, INVERSE_SECOND_SQUARED, INVERSE_SECOND, DIMENSIONLESS, SECOND, SECOND_SQUARED, SECOND_CUBED,
+        MILLIMETER_PER_SECOND_CUBED, MILLIMETER_PER_SECOND_SQUARED, MILLIMETER_PER_SECOND, MILLIMETER, MILLIMETER_SECOND, MILLIMETER_SECOND_SQUARED, MILLIMETER_SECOND_CUBED,
+        MILLIMETER_SQUARED_PER_SECOND_CUBED, MILLIMETER_SQUARED_PER_SECOND_SQUARED, MILLIMETER_SQUARED_PER_SECOND, MILLIMETER_SQUARED, MILLIMETER_SQUARED_SECOND, MILLIMETER_SQUARED_SECOND_SQUARED, MILLIMETER_SQUARED_SECOND_CUBED,
+        MILLIMETER_CUBED_PER_SECOND_CUBED, MILLIMETER_CUBED_PER_SECOND_SQUARED, MILLIMETER_CUBED_PER_SECOND, MILLIMETER_CUBED, MILLIMETER_CUBED_SECOND, MILLIMETER_CUBED_SECOND_SQUARED, MILLIMETER_CUBED_SECOND_CUBED,
+    ]
+}
+/// (copy of the C01 table, so that every configuration crate has it) The exponents a constant's *name* states: `[INVERSE_] unit [_SQUARED|_CUBED] ... [PER_ ...]`.
+pub fn exponents_in_name(name: &str) -> (i8, i8) {
+    if name == "DIMENSIONLESS" {
+        return (0, 0);
+    }
+    let toks: Vec<&str> = name.split('_').collect();
+    let (mut mm, mut s) = (0i8, 0i8);
+    let mut sign = 1i8;
+    let mut i = 0;
+    while i < toks.len() {
+        match toks[i] {
+            "INVERSE" | "PER" => sign = -1,
+            u @ ("MILLIMETER" | "SECOND") => {
+                let mut p = 1;
+                if i + 1 < toks.len() {
+                    if toks[i + 1] == "SQUARED" {
+                        p = 2;
+                        i += 1;
+                    } else if toks[i + 1] == "CUBED" {
+                        p = 3;
+                        i += 1;
+                    }
+                }
+                if u == "MILLIMETER" {
+                    mm += sign * p;
+                } else {
+                    s += sign * p;
+                }
+            }
+            other => panic!("unparsable token {} in constant name {}", other, name),
+        }
+        i += 1;
+    }
+    (mm, s)
+}
+
+/// The named unit constants as a consumer uses them: compared (the way the crate's own checks compare) with the unit their
+/// name states. Without dimension checking nothing is compared, so every configuration prints the same on a correct tree.
+pub fn run_constants(out: &mut Vec<String>) {
+    for (name, unit) in named_constants().iter() {
+        let (mm, s) = exponents_in_name(name);
+        out.push(if unit.eq_assume_true(&Unit::new(mm, s)) { "k-ok".to_string() } else { format!("k-mismatch:{}", name) });
+    }
+}
 pub fn run_quantity(prog: &[QTok], out: &mut Vec<String>) {
     let mut st: Vec<V> = Vec::new();
     for tok in prog {
@@ -683,7 +744,10 @@ pub fn run_datum(t1: i64, t2: i64, a: f32, b: f32, out: &mut Vec<String>) {
 
 pub fn run_step(step: &Step, out: &mut Vec<String>) {
     match step {
-        Step::Quantity(prog) => run_quantity(prog, out),
+        Step::Quantity(prog) => {
+            run_constants(out);
+            run_quantity(prog, out)
+        }
         Step::StateOps { s, ops } => run_state(*s, ops, out),
         Step::Profile { start, end, max_vel, max_acc, times } => run_profile(*start, *end, *max_vel, *max_acc, times, out),
         Step::Stream { kind, params, t0, events, cond } => run_stream(*kind, params, *t0, events, cond, out),
